@@ -299,6 +299,17 @@ class Trimesh(Geometry3D):
             # being returned so there is no danger of inconsistent dimensions
             self.remove_infinite_values()
             count = len(self.vertices)
+
+            def collapsed():
+                # how many faces use one of their vertices twice
+                f = self.faces.view(np.ndarray)
+                if len(f.shape) != 2 or f.shape[1] != 3:
+                    return 0
+                return int(
+                    ((f[:, 0] == f[:, 1]) | (f[:, 1] == f[:, 2]) | (f[:, 2] == f[:, 0])).sum()
+                )
+
+            collapsed_before = collapsed()
             self.merge_vertices(merge_tex=merge_tex, merge_norm=merge_norm)
             # `fix_normals` may have re-wound faces in which
             # case the stored normals point the wrong way
@@ -308,12 +319,7 @@ class Trimesh(Geometry3D):
                     # vertices with different normals were merged
                     # so the normal of the first one is not the answer
                     keep.discard("vertex_normals")
-                faces = self.faces.view(np.ndarray)
-                if (
-                    (faces[:, 0] == faces[:, 1])
-                    | (faces[:, 1] == faces[:, 2])
-                    | (faces[:, 2] == faces[:, 0])
-                ).any():
+                if collapsed() > collapsed_before:
                     # the merge collapsed a face which has no normal anymore
                     keep.clear()
             self._cache.clear(exclude=keep)
